@@ -62,6 +62,8 @@ inline std::string genText(Rng &r, size_t len) {
     std::string s;
     for (size_t i = 0; i < len; ++i) s.push_back(static_cast<char>(0x20 + r.below(0x5F)));
     if (!s.empty() && s.back() == ' ') s.back() = '~';
+    // now and then a tab / line feed / carriage return, also as the LAST character: only blanks (0x20) are padding in a C3D string
+    if (!s.empty() && r.below(12) == 0) { static const char ws[] = {'\t', '\n', '\r', '\v', '\f'}; s[r.below(2) ? s.size() - 1 : r.below(s.size())] = ws[r.below(5)]; }
     return s;
 }
 
